@@ -2802,6 +2802,42 @@ pub fn validate_sozu_id_header(value: &str) -> Result<(), StateError> {
             });
         }
     }
+    // The correlation header is injected into every request and response next
+    // to the fields the proxy itself owns or interprets. Naming it like one of
+    // those would make the proxy emit that field twice (e.g. two
+    // `X-Request-Id`, a second `Host` or `Content-Length` line) or make its own
+    // elision of client-supplied copies remove a field it must forward.
+    const RESERVED: [&str; 23] = [
+        "host",
+        "content-length",
+        "transfer-encoding",
+        "connection",
+        "proxy-connection",
+        "keep-alive",
+        "te",
+        "trailer",
+        "upgrade",
+        "http2-settings",
+        "cookie",
+        "set-cookie",
+        "forwarded",
+        "x-forwarded-for",
+        "x-forwarded-proto",
+        "x-forwarded-port",
+        "x-forwarded-host",
+        "x-real-ip",
+        "x-request-id",
+        "user-agent",
+        "traceparent",
+        "tracestate",
+        "strict-transport-security",
+    ];
+    if RESERVED.iter().any(|name| value.eq_ignore_ascii_case(name)) {
+        return Err(StateError::InvalidValue {
+            field: "sozu_id_header",
+            reason: "must not be the name of a field the proxy owns or interprets (Host, Content-Length, Transfer-Encoding, Connection, X-Forwarded-*, Forwarded, X-Real-IP, X-Request-Id, Cookie, ...)",
+        });
+    }
     Ok(())
 }
 
